@@ -34,13 +34,13 @@ def consts(**kw):
     return d
 
 
-def mc(cs, what, expect=None, timeout=600):
+def mc(cs, what, expect=None, timeout=600, simulate=None, depth=None, seed=None):
     hist = cs["WithHist"] == "TRUE"
     invs, props = INV + (["Emit"] if hist else []), PROPS
     if expect:  # negative control: only the property that must be refuted
         invs, props = ([expect], []) if expect in INV else ([], [expect])
     r = C.run_tlc_wrapped("Registry", cs, dict(spec="Spec", invariants=invs, properties=props, view=None if hist else "View"),
-                          workers=1 if hist else C.NCPU, timeout=timeout)
+                          workers=1 if hist else C.NCPU, timeout=timeout, simulate=simulate, depth=depth, seed=seed)
     if expect:
         if expect not in r.violated:
             raise C.MachineryError(f"negative control {what}: TLC no longer refutes {expect} (violated={r.violated})\n{r.tail[-600:]}")
@@ -124,6 +124,10 @@ def run(tier, seed):
                  ("routing-all-kinds", consts(WithHist="TRUE", Spells=S2, Lean="TRUE")),
                  ("dup", consts(WithHist="TRUE", Universe=U2, MaxCreates=3, MaxStmts=4, Spells=SS, DupCreates="TRUE",
                                 Kinds='{"addcol","drop","unique","index"}'))]
+    sims = []
+    if thorough:
+        sims = [("simulation: <=7 statements, 4 tables, all kinds, 2x2 spellings",
+                 consts(WithHist="TRUE", MaxCreates=3, MaxStmts=7, Spells=S4, ColSpells='{"same","other"}', CNames='{"","k1"}'), "num=500", 12)]
     seeds = [seed * 7 + i for i in range(2 if not thorough else 5)]
     cov["generation"] = []
     total = uniq = 0
@@ -150,6 +154,13 @@ def run(tier, seed):
                 uniq += nu2
             n2, nu2, _ = compare(V, sub, seeds[:1], f"{what}/normalize_names", ctor={"normalize_names": True}) if False else (0, 0, 0)
 
+    for what, cs, num, depth in sims:
+        g = mc(cs, what, timeout=3000, simulate=num, depth=depth, seed=seed + 5)
+        uniq_b = sorted({json.dumps(b["hist"]): b for b in g.beh}.values(), key=lambda b: -len(b["hist"]))[:40000]   # TLC prints every successor it generates
+        n, nu, nbad = compare(V, uniq_b, seeds[:2], what)
+        total += n
+        uniq += nu
+        cov["generation"].append({"config": what, "behaviours": len(uniq_b), "renderings": n, "mismatches": nbad})
     # ---- 3. code -> spec: the library's own `Apply` events (one per statement result) validated by TLC against TraceRegistry.tla --------
     import os
     os.environ[C.GUARD] = "1"
